@@ -504,6 +504,7 @@ class Interp:
         self.fresh = 0
         self.evaluations = 0
         self.unknown_calls = {}
+        self.loops = []           # loop records (see run_loop)
         self.assumed = set()      # keys of branch conditions whose other arms all diverge (assertions)
         from . import tables as T
         self.tables = T
@@ -661,13 +662,29 @@ class Interp:
             for c in cands:
                 if J is None or len(pd[c]) > len(pd[J]):
                     J = c
+        pre_vals = [c.v for c in st.cells]
         self.havoc_loop(st, cfg, header, L)
+        phi_vals = [c.v for c in st.cells]
         self.loop_depth += 1
         g0 = st.guard
         inner_stops = frozenset(exits | {header})
         r = self.run(st, cfg, header, inner_stops, first=True, active_loops=active_loops + (header,))
         self.loop_depth -= 1
         st.guard = g0
+        # loop record (for recurrence rules): values of the frame's locals before the loop, the phi
+        # symbols standing for them inside, and their values on every back edge
+        ncell = len(st.cells)
+        idx_of = {id(c): i for i, c in enumerate(st.cells)}
+        back = []
+        for g, snap in r.get(header, []):
+            vals = {}
+            for c, v in snap:
+                i = idx_of.get(id(c))
+                if i is not None:
+                    vals[i] = v
+            back.append((g[len(g0):], vals))
+        self.loops.append({'body': st.body, 'header': header, 'blocks': L, 'init': pre_vals, 'phi': phi_vals, 'back': back,
+                           'depth': len(self.stack)})
         out = {}
         exit_states = []
         for sk, lst in r.items():
